@@ -102,7 +102,7 @@ type outcome struct {
 	effects []string
 	dropped map[int]bool // labels of retransmissions of accepted requests (left out of the reference run)
 	joinClass bool       // the violation is an in-flight false retry answered with the original's reply
-	known     string     // occurrence of a defect reported once per run under a stable signature (search goes on)
+	sigClass  string     // stable signature of the violation class, if it has one
 	refs map[int]bool    // request ids whose replies later ops take state IDs from
 	defs map[int]int     // label of an op -> id of the request it introduced
 }
